@@ -21,6 +21,12 @@ def build(spec, lazy=False, offset=0):
         arr = da.from_array(arr, chunks=-1)
     ens = [mk_axis(a) for a in spec["axes"]]
     bd = spec["bd"]
+    cls = spec.get("cls", "Images")
+    if bd == 2 and cls == "Waves":
+        import abtem
+        return abtem.Waves(arr.astype(np.complex64), energy=100e3, sampling=0.5, ensemble_axes_metadata=ens)
+    if bd == 2 and cls == "DiffractionPatterns":
+        return M.DiffractionPatterns(arr, sampling=0.5, fftshift=True, ensemble_axes_metadata=ens, metadata={"energy": 100e3})
     if bd == 2:
         return M.Images(arr, sampling=0.5, ensemble_axes_metadata=ens)
     if bd == 1:
@@ -65,7 +71,7 @@ def canon(o):
     """real result -> the reply string of the Lean driver"""
     from abtem.core import axes as A
     arr = o.compute().array if o.is_lazy else o.array
-    arr = np.asarray(arr)
+    arr = np.real(np.asarray(arr))
     axes = [canon_axis(a) for a in o.ensemble_axes_metadata]
     md = [f"{k[1:]}:{int(v)}" for k, v in o.metadata.items() if isinstance(k, str) and k.startswith("L")]
     data = [int(round(float(v))) for v in arr.reshape(-1)]
@@ -126,7 +132,17 @@ def run_op(spec, op, lazy=False):
         return o.squeeze(axis=None if op["axes"] is None else tuple(op["axes"]))
     if k == "reduce":
         ax = tuple(op["axes"]) if len(op["axes"]) != 1 else op["axes"][0]
-        return o.sum(axis=ax, keepdims=op["keepdims"])
+        return getattr(o, op.get("func", "sum"))(axis=ax, keepdims=op["keepdims"])
+    if k == "concat":
+        objs = []
+        for j in range(op["k"]):
+            sp = dict(spec, axes=[(["O", a[1], [v + 100 * j for v in a[2]]] if (a[0] == "O" and i == op["axis"]) else a)
+                                  for i, a in enumerate(spec["axes"])])
+            objs.append(build(sp, lazy, offset=1000 * j))
+        return abtem.concatenate(objs, axis=op["axis"])
+    if k == "arith":
+        other = build(spec, lazy, offset=1000) if op["other"] == "obj" else (2.0 if op["other"] == "scalar" else np.full(spec["shape"], 3.0))
+        return {"add": lambda: o + other, "sub": lambda: o - other, "mul": lambda: o * other, "div": lambda: o / (other if op["other"] != "obj" else 2.0)}[op["fn"]]()
     if k == "stack":
         objs = [build(spec, lazy, offset=1000 * j) for j in range(op["k"])]
         return abtem.stack(objs, axis_metadata=None if op["new"][0] == "U" else mk_axis(op["new"]), axis=op["axis"])
@@ -167,6 +183,8 @@ def op_line(spec, op):
         return f"squeeze {o} {'none' if op['axes'] is None else list_s(op['axes'])}"
     if k == "reduce":
         return f"reduce {o} {list_s(op['axes'])} {'T' if op['keepdims'] else 'F'}"
+    if k == "concat":
+        return f"concat {o} {op['k']} {op['axis']}"
     return f"stack {o} {op['k']} {axis_s(op['new'])} {op['axis']}"
 
 
@@ -186,7 +204,10 @@ def gen_spec(rng, force_ens=None):
         else:
             axes.append(["U"])
     shape += [rng.choice([2, 3]) for _ in range(bd)]
-    return {"bd": bd, "shape": shape, "axes": axes}
+    spec = {"bd": bd, "shape": shape, "axes": axes}
+    if bd == 2:
+        spec["cls"] = rng.choice(["Images", "Images", "Waves", "DiffractionPatterns"])
+    return spec
 
 
 def gen_item(rng, n, allow_list=True, edge=False):
@@ -204,10 +225,16 @@ def gen_item(rng, n, allow_list=True, edge=False):
     return ["s", None, None, None]
 
 
-def gen_op(rng, spec, edge=False):
+def gen_op(rng, spec, edge=False, with_arith=False):
     ne = len(spec["axes"])
     nd = len(spec["shape"])
-    k = rng.choice(["get", "get", "get", "expand", "squeeze", "reduce", "reduce", "stack"])
+    k = rng.choice(["get", "get", "get", "expand", "squeeze", "reduce", "reduce", "stack", "concat"] + (["arith"] if with_arith else []))
+    if k == "concat" and ne == 0:
+        k = "stack"
+    if k == "concat":
+        return {"op": "concat", "k": rng.randint(1, 3), "axis": rng.randrange(ne)}
+    if k == "arith":
+        return {"op": "arith", "fn": rng.choice(["add", "sub", "mul", "div"]), "other": rng.choice(["obj", "scalar", "array"])}
     if k == "get":
         cnt = rng.randint(0, ne + (2 if edge else 0))
         items, dim, has_list, has_int = [], 0, False, False
@@ -238,7 +265,8 @@ def gen_op(rng, spec, edge=False):
         m = rng.randint(1, 2)
         pool = list(range(-nd, nd)) if edge or rng.random() < 0.25 else (list(range(ne)) or [0])
         axes = [rng.choice(pool) for _ in range(m)] if edge else rng.sample(pool, min(m, len(pool)))
-        return {"op": "reduce", "axes": axes, "keepdims": rng.random() < 0.4}
+        return {"op": "reduce", "axes": axes, "keepdims": rng.random() < 0.4,
+                "func": rng.choice(["sum", "mean", "max", "min", "std"]) if with_arith else "sum"}
     kk = rng.randint(1, 3)
     new = rng.choice([["O", 70, [rng.randint(0, 9) for _ in range(kk)]], ["T", 71], ["U"], ["O", 72, [1, 2, 3, 4][:kk + rng.choice([0, 0, 1])]]])
     return {"op": "stack", "k": kk, "new": new, "axis": rng.randint(0 if not edge else -1, ne + (1 if edge else 0))}
@@ -258,7 +286,7 @@ class C29(Property):
         "with the real result of every operation",
         "DASK: lazy arrays compute to the same values (exercised: every correspondence case also runs lazily)",
     ]
-    assumptions = ["axis metadata other than OrdinalAxis values is an opaque tag in the model (coordinates of linear axes are not modelled)",
+    assumptions = ["axis metadata other than OrdinalAxis values and LinearAxis offset/sampling is an opaque tag in the model",
                    "index lists combined with integer indices or with a second index list (NumPy advanced-index broadcasting) are outside "
                    "the model (`unsupported`) and are exercised by the conformance oracle only"]
     rule = ("random array objects (0-3 ensemble axes of size 1-4: ordinal / tagged / unknown; base dims 0, 1, 2; data = row-major "
@@ -292,25 +320,61 @@ class C29(Property):
     # -- the property's conclusion, checked on the implementation without the model -------
     @staticmethod
     def corner(case):
-        """name of the recorded corner a failing case belongs to (None = an ordinary case)"""
-        spec, op = case["spec"], case["op"]
-        k = op["op"]
-        nd = len(spec["shape"])
-        if k == "get":
-            kinds = [i[0] for i in op["items"]]
-            if "l" in kinds and "i" in kinds:
-                return "get-int-with-index-list-advanced-indexing-misaligned"
+        """`get-int+list` when the item tuple holds an integer and an index list that are NOT adjacent (a slice or None between
+        them): NumPy then moves the broadcast dimension to the front.  Adjacent int/list combinations are ordinary cases."""
+        op = case["op"]
+        if op["op"] != "get" or op["keepdims"]:
+            return None
+        kinds = [i[0] for i in op["items"]]
+        adv = [j for j, k in enumerate(kinds) if k in ("i", "l")]
+        if "l" in kinds and "i" in kinds and any(b - a > 1 for a, b in zip(adv, adv[1:])):
+            return "get-int+list"
         return None
 
     def oracle(self, ctx: Ctx, case):
         before = len(ctx.violations)
         r = self._oracle(ctx, case)
-        c = self.corner(case)
-        if c is not None:
+        if self.corner(case) is not None:
             for v in ctx.violations[before:]:
-                v["detail"] = {"observed_as": v["key"], **(v["detail"] if isinstance(v["detail"], dict) else {})}
-                v["key"] = c
+                # the observed failure stays in the key; it is only re-keyed after an independent check that the case is the
+                # recorded one (NumPy moved the broadcast dimension / dask did not)
+                if self.is_recorded_advanced_index_case(case, v["key"]):
+                    v["key"] = "get-int+list:" + v["key"]
         return r
+
+    @staticmethod
+    def is_recorded_advanced_index_case(case, observed):
+        spec, op = case["spec"], case["op"]
+        raw = np.arange(int(np.prod(spec["shape"])), dtype=np.float64).reshape(spec["shape"])
+        items = tuple(py_item(i) for i in op["items"])
+        try:
+            numpy_result = raw[items]
+            in_item_order = raw
+            # the same selection applied one item at a time (what the metadata code assumes)
+            dim = 0
+            for it in items:
+                if it is None:
+                    in_item_order = np.expand_dims(in_item_order, dim)
+                    dim += 1
+                elif isinstance(it, int):
+                    in_item_order = np.take(in_item_order, it, axis=dim)
+                else:
+                    in_item_order = in_item_order[(slice(None),) * dim + (it,)]
+                    dim += 1
+        except Exception:  # noqa
+            return False
+        moved = numpy_result.shape != in_item_order.shape or not np.array_equal(numpy_result, in_item_order)
+        if observed == "get-valid-operation-raises-RuntimeError":
+            return moved and numpy_result.shape != in_item_order.shape
+        if observed == "get-values-differ-from-numpy":
+            if not case.get("lazy") or not moved:
+                return False
+            try:   # dask keeps the item order: the lazy result must be exactly the item-by-item selection
+                lazy = run_op(spec, op, True)
+                return np.array_equal(np.real(np.asarray(lazy.compute().array)), in_item_order)
+            except Exception:  # noqa
+                return False
+        return False
 
     def _oracle(self, ctx: Ctx, case):
         from abtem.core import axes as A
@@ -351,7 +415,14 @@ class C29(Property):
                 elif len(set(ax)) != len(ax) or any(a < 0 or a >= nd for a in ax):
                     expect = "refuse"
                 else:
-                    expect = raw.sum(axis=tuple(ax), keepdims=op["keepdims"])
+                    expect = getattr(raw, op.get("func", "sum"))(axis=tuple(ax), keepdims=op["keepdims"])
+            elif k == "concat":
+                expect = np.concatenate([raw + 1000 * j for j in range(op["k"])], axis=op["axis"])
+            elif k == "arith":
+                other = raw + 1000 if op["other"] == "obj" else (2.0 if op["other"] == "scalar" else np.full(raw.shape, 3.0))
+                if op["fn"] == "div" and op["other"] == "obj":
+                    other = 2.0
+                expect = {"add": raw + other, "sub": raw - other, "mul": raw * other, "div": raw / other}[op["fn"]]
             else:
                 if not (0 <= op["axis"] <= ne):
                     expect = "refuse"
@@ -365,7 +436,7 @@ class C29(Property):
             expect = "refuse"
         try:
             r = run_op(spec, op, lazy)
-            got = np.asarray(r.compute().array if r.is_lazy else r.array)
+            got = np.real(np.asarray(r.compute().array if r.is_lazy else r.array))
         except Exception as e:  # noqa
             if isinstance(expect, str):
                 return "refused"
@@ -375,7 +446,7 @@ class C29(Property):
         if isinstance(expect, str):
             ctx.violation(f"{k}-invalid-operation-accepted", case, {"result_shape": list(got.shape)})
             return "accepted"
-        if got.shape != expect.shape or not np.array_equal(got, expect):
+        if got.shape != expect.shape or not np.allclose(got, expect, rtol=1e-5, atol=1e-5):
             ctx.violation(f"{k}-{'keepdims-' if op.get('keepdims') else ''}values-differ-from-numpy", case,
                           {"numpy_shape": list(expect.shape), "shape": list(got.shape)})
             return "values"
@@ -386,6 +457,22 @@ class C29(Property):
             if isinstance(a, A.OrdinalAxis) and len(a) != n:
                 ctx.violation(f"{k}-ordinal-length-differs-from-dimension", case, {"len": len(a), "dim": n})
                 return "ordlen"
+        if k == "concat":
+            res_axes = [canon_axis(a) for a in r.ensemble_axes_metadata]
+            want = []
+            for i, a in enumerate(spec["axes"]):
+                if i == op["axis"] and a[0] == "O":
+                    want.append(axis_s(["O", a[1], [v + 100 * j for j in range(op["k"]) for v in a[2]]]))
+                else:
+                    want.append(axis_s(a))
+            if res_axes != want:
+                ctx.violation("concatenate-axes-metadata-wrong", case, {"axes": res_axes, "expected": want})
+                return "concat-axes"
+        if k == "arith":
+            res_axes = [canon_axis(a) for a in r.ensemble_axes_metadata]
+            if res_axes != [axis_s(a) for a in spec["axes"]] or type(r).__name__ != spec.get("cls", type(r).__name__):
+                ctx.violation("arithmetic-axes-metadata-changed", case, {"axes": res_axes})
+                return "arith-axes"
         if k == "expand":
             nd2 = got.ndim
             pos = [a if a >= 0 else a + nd2 for a in op["axes"]]
@@ -438,7 +525,7 @@ class C29(Property):
     def gen_conf(self, ctx: Ctx, i):
         rng = ctx.rng
         spec = gen_spec(rng)
-        op = gen_op(rng, spec, edge=i % 5 == 4)
+        op = gen_op(rng, spec, edge=i % 5 == 4, with_arith=True)
         if op["op"] == "get" and i % 7 == 0:  # NumPy advanced-index corner: int and list (outside the model)
             op["items"] = [["i", 0], ["s", None, None, None], ["l", [0, 0]]][:max(1, len(spec["axes"]))]
             op["keepdims"] = False
